@@ -31,6 +31,11 @@ type docCase struct {
 	Perm []int      `json:"perm,omitempty"`
 	// SkipPrivate: finish the document the way RunTraceroute does with SkipPrivateHops (Normalize, then RemovePrivateHops)
 	SkipPrivate bool `json:"skip_private,omitempty"`
+	// History: what the collection of runs went through before it is finished: "" nothing (identifiers empty);
+	// "preset" identifiers already filled in, all with one value; "garbage" filled in with strings that are no
+	// identifiers; "twice" a finished document that is finished again (after a JSON round trip, its first run
+	// appended once more)
+	History string `json:"history,omitempty"`
 }
 
 func ipOf(spec string) net.IP {
@@ -110,6 +115,7 @@ func genDoc(t *rapid.T) *docCase {
 		c.Perm = rapid.Permutation(seq(ns)).Draw(t, "perm")
 	}
 	c.SkipPrivate = rapid.Bool().Draw(t, "skip_private")
+	c.History = oneOf(t, "history", "", "", "", "preset", "garbage", "twice")
 	return c
 }
 
@@ -159,6 +165,33 @@ func checkC16(t *testing.T, c *docCase, rec *Recorder) []Diff {
 	var ds []Diff
 	add := func(sig, f string, a ...any) { ds = append(ds, Diff{"C16", sig, fmt.Sprintf(f, a...)}) }
 	r := c.build(c.RTTs)
+	switch c.History {
+	case "preset":
+		r.TestRunID = "AAAAAAAAAAAAAAAAAAAAAA"
+		for i := range r.Traceroute.Runs {
+			r.Traceroute.Runs[i].RunID = "AAAAAAAAAAAAAAAAAAAAAA"
+		}
+	case "garbage":
+		r.TestRunID = "not an identifier"
+		for i := range r.Traceroute.Runs {
+			r.Traceroute.Runs[i].RunID = fmt.Sprintf("run %d", i)
+		}
+	case "twice":
+		r.Normalize()
+		idMu.Lock()
+		allIDs[r.TestRunID] = true
+		for _, run := range r.Traceroute.Runs {
+			allIDs[run.RunID] = true
+		}
+		idMu.Unlock()
+		if b, err := json.Marshal(r); err == nil {
+			var back result.Results
+			if json.Unmarshal(b, &back) == nil && len(back.Traceroute.Runs) == len(c.Runs) {
+				// (the decoded document is the same collection of runs, C16's own round-trip clause)
+				r = &back
+			}
+		}
+	}
 	r.Normalize()
 	// reachable <=> address
 	longest := 0
@@ -366,7 +399,7 @@ func docDiff(a, b *result.Results) string {
 }
 
 func TestC16(t *testing.T) {
-	rec := NewRecorder("C16", "C16", "rapid: result documents (0..6 runs of 1..12 hops with nil / 4-byte / 16-byte / IPv4-mapped addresses; 0..50 RTT samples: zero, Duration-derived up to 9.2e12 ms, all-zero, identical, huge; a permutation of the sample order); oracle after Normalize(): reachable <=> address, hop-count relations and an independent recomputation, sent/received/loss, min<=avg<=max and 0<=jitter<=max-min (relative tolerance 1e-9 for floating-point summation), permutation invariance, identifiers URL-safe base64 of 16 bytes and never repeated across the whole run, JSON key set == published list, Unmarshal(Marshal(d)) == d; non-trivial = >= 2 runs of different length and >= 2 positive samples")
+	rec := NewRecorder("C16", "C16", "rapid: result documents (0..6 runs of 1..12 hops with nil / 4-byte / 16-byte / IPv4-mapped addresses; 0..50 RTT samples: zero, Duration-derived up to 9.2e12 ms, all-zero, identical, huge; a permutation of the sample order; a quarter of the documents with a history: identifiers already filled in with one value or with strings that are no identifiers, or a finished document decoded from its JSON and finished again); oracle after Normalize(): reachable <=> address, hop-count relations and an independent recomputation, sent/received/loss, min<=avg<=max and 0<=jitter<=max-min (relative tolerance 1e-9 for floating-point summation), permutation invariance, identifiers URL-safe base64 of 16 bytes and never repeated across the whole run, JSON key set == published list, Unmarshal(Marshal(d)) == d; non-trivial = >= 2 runs of different length and >= 2 positive samples")
 	RunProp(t, rec, genDoc, checkC16)
 }
 
